@@ -35,6 +35,13 @@ def rules(ctx, report, facts, config, pfx="C02"):
     report.guard(pfx + ".EXEC", F.check_family, ctx, report, pfx + ".EXEC", facts, config, (F.RUN,), lambda i: i in EXEC_IDS)
 
 
-def run(ctx, report):
+def _run_rules(ctx, report):
     for config in ctx.configs:
         rules(ctx, report, ctx.facts(config), config)
+
+
+def run(ctx, report):
+    _run_rules(ctx, report)
+    from .. import shared as _S
+    for config in ctx.configs:
+        report.guard("C02.ENCAPSULATED", _S.encapsulated, ctx, report, "C02.ENCAPSULATED", ctx.facts(config), config, "C02")
